@@ -77,11 +77,24 @@ def run_case(case):
             # elements are told apart the way memento tells arguments apart (value and type), not by Python equality:
             # now and then the pool holds values that are equal for Python and distinct for memento
             pool = [1, 1.0, True, 0, False, 2] if rng.random() < 0.3 else list(range(5))
+            if (case["idx"] + b) % 5 == 1:
+                # (no draw) ... dates and timestamps next to the text that spells them: distinct calls as well
+                import datetime as _dt
+
+                d0, t0 = _dt.date(2020, 1, 2), _dt.datetime(2020, 1, 2, 3, 4, 5)
+                t1 = _dt.datetime(2020, 1, 2, 3, 4, 5, tzinfo=_dt.timezone.utc)
+                pool = [d0, str(d0), t0, str(t0), t1, str(t1)]
+                out["obs"]["batches_over_dates_and_their_spellings"] += 1
             rid = repr
             kinds = {}
+            by_key = {}
             for k in pool:
                 r = rng.random()
                 key = "%s|%s" % (prefix, k)
+                if key in by_key:  # (a date and the text that spells it look up the same table entry: same kind of outcome)
+                    kinds[rid(k)] = by_key[key]
+                    continue
+                by_key[key] = None
                 if r < 0.6:
                     vr = core.rng_for(prefix, k)
                     ffuncs.TABLE[key] = (lambda vr_seed=(prefix, k): domain.gen_result(core.rng_for(*vr_seed), 1))
@@ -95,6 +108,7 @@ def run_case(case):
                 else:
                     ffuncs.TABLE[key] = ("__raise__", ffuncs.Transient, ("elem %s later" % rid(k),))
                     kinds[rid(k)] = "transient"
+                by_key[key] = kinds[rid(k)]
             batch = [rng.choice(pool) for _ in range(rng.choice([0, 1, 2, 3, 4, 5, 6, 8]))]
             pre = [k for k in pool if rng.random() < 0.4]
             pre_ids = {rid(k) for k in pre}
@@ -208,11 +222,12 @@ def run_case(case):
                          label, len(stateA), len(stateB), sorted(k[1][:8] for k in set(stateA) ^ set(stateB))))
             # body executions
             runs = collections.Counter(e[1][0] for e in events if e[0] == "pair")
-            for k in {rid(k): k for k in batch}.values():
+            for k in {"%s|%s" % (prefix, k): k for k in batch}.values():
                 n = runs.get("%s|%s" % (prefix, k), 0)
                 if kinds[rid(k)] == "transient":
                     continue
-                want = 0 if rid(k) in pre_ids else 1
+                # (elements that look up the same table entry - a date and its spelling - are distinct calls, counted together)
+                want = len({rid(x) for x in batch if "%s|%s" % (prefix, x) == "%s|%s" % (prefix, k) and rid(x) not in pre_ids})
                 out["obs"]["element_body_counts_checked"] += 1
                 if len(pool) == 6:
                     out["obs"]["typed_twin_elements_checked"] += 1
